@@ -48,6 +48,8 @@ type Arrival struct {
 
 // Script is one case.
 type Script struct {
+	// RawSizes: Size and Max were drawn without the rule that couples them; Validate decides the domain
+	RawSizes  bool `json:",omitempty"`
 	Signal    string
 	Size      int // send_batch_size
 	Max       int // send_batch_max_size
@@ -230,6 +232,14 @@ func genScript(t *rapid.T) Script {
 		}
 		s.Max = lo + rapid.SampledFrom([]int{0, 0, 1, 2, 3, 5, 8, 20}).Draw(t, "maxextra")
 	}
+	// one script in six writes the two sizes without looking at the rule that couples them (the factory default
+	// 8192 for send_batch_size included): the tree's own Validate decides whether the configuration is in the
+	// domain ("every configuration accepted by validation"); whatever it accepts has to keep every clause
+	if rapid.IntRange(0, 5).Draw(t, "rawsizes") == 0 {
+		s.RawSizes = true
+		s.Size = rapid.SampledFrom([]int{0, 1, 2, 5, 8192, 8192, 8192}).Draw(t, "rawsize")
+		s.Max = rapid.SampledFrom([]int{0, 1, 2, 3, 5, 8, 8191, 8192, 8193}).Draw(t, "rawmax")
+	}
 	s.SinkDelayUS = rapid.SampledFrom([]int{0, 0, 0, 50, 300, 1000}).Draw(t, "sinkdelay")
 	s.Scribble = rapid.Bool().Draw(t, "scribble")
 	s.Settle = rapid.Bool().Draw(t, "settle")
@@ -324,6 +334,9 @@ func (k *sink) consume(ctx context.Context, v any) error {
 
 type consumeFn func(ctx context.Context, data []byte) error
 
+// errOutsideDomain: the raw configuration was rejected by the tree's Validate - not a case
+var errOutsideDomain = &vt.Finding{Sig: "outside-domain"}
+
 func build(s *Script, k *sink) (component.Component, consumeFn, *vt.Finding) {
 	f := batchprocessor.NewFactory()
 	cfg := f.CreateDefaultConfig().(*batchprocessor.Config)
@@ -333,6 +346,9 @@ func build(s *Script, k *sink) (component.Component, consumeFn, *vt.Finding) {
 	cfg.MetadataKeys = s.Keys
 	cfg.MetadataCardinalityLimit = uint32(s.Limit)
 	if err := cfg.Validate(); err != nil {
+		if s.RawSizes {
+			return nil, nil, errOutsideDomain
+		}
 		return nil, nil, vt.Failf("harness/config", "generated config rejected by Validate: %v", err)
 	}
 	set := processortest.NewNopSettings(f.Type())
@@ -449,8 +465,15 @@ func runInner(c *vt.C, s *Script) (nontrivial bool, f *vt.Finding) {
 	k.emitted = make([]int, len(groupVals))
 
 	proc, consume, hf := build(s, k)
+	if hf == errOutsideDomain {
+		c.Class("raw-sizes:rejected-by-validate")
+		return false, nil
+	}
 	if hf != nil {
 		return false, hf
+	}
+	if s.RawSizes {
+		c.Class(fmt.Sprintf("raw-sizes:accepted(size=%d,max=%d)", s.Size, s.Max))
 	}
 	type starter interface {
 		Start(context.Context, component.Host) error
